@@ -105,13 +105,14 @@ where
     let (uu, mu) = (b.units[iu], b.um(iu));
     let su = mu.scale.clone().unwrap();
     let specs: [(usize, Option<usize>, Option<usize>); 5] = [(0, None, None), (3, Some(8), Some(3)), (21, Some(20), Some(0)), (0, None, Some(20)), (29, Some(40), Some(18))];
+    let long = fmtgrid::long_specs(thorough());
     for &a in &t {
         rep.inc("states");
         let ar = rat_of(a);
         let qa = Q::new(a, uu);
         let dom_a = like_domain(&ar, &su, &ar, &su, &min).a_only;
         // formatting
-        for &(fi, w, p) in &specs {
+        for &(fi, w, p) in specs.iter().chain(long.iter()) {
             let r = guard(|| fmtgrid::apply(fi, w, p, &qa));
             outcome(rep, r, dom_a, "C18/format-panics", || case(key, "format", json!({"value": show_q(a, b.vname(iu)), "flags": fmtgrid::FLAGS[fi].text, "width": w, "precision": p})));
         }
